@@ -16,9 +16,7 @@ import (
 	"sync"
 	"time"
 
-	"github.com/lugu/qiloop/bus"
 	"github.com/lugu/qiloop/bus/net"
-	"github.com/lugu/qiloop/examples/pong"
 	"github.com/lugu/qiloop/vhook"
 	"verif/harness/hlib"
 )
@@ -198,6 +196,13 @@ type recPlan struct {
 	byG   [][]plannedCall // per goroutine
 	raws  []scRaw
 	delay bool
+	seq   []floodItem // flood: the requests in the order they are written
+}
+
+// floodItem: a call (made by a goroutine through the bus.Client) or a raw frame (a post).
+type floodItem struct {
+	call *plannedCall
+	raw  *scRaw
 }
 
 func planRandom(rng *rand.Rand) *recPlan {
@@ -264,22 +269,100 @@ func planRandom(rng *rand.Rand) *recPlan {
 	return p
 }
 
-// planFlood: one connection, the object blocked, more requests than the mailbox (10), the
-// consumer (1) and the consumer queue (10) can hold: the overflow is answered "consumer blocked".
+// planShared: SEVERAL bus.Client objects on one end point (what bus.NewClientObject builds): every client counts
+// its ids from 1 and has a target of its own (object, or action on a shared object), so calls of different
+// clients are in flight under equal ids.  Sometimes a second connection with an ordinary client.
+func planShared(rng *rand.Rand) *recPlan {
+	p := &recPlan{cfg: trConfig{Ev: "config", Calls: map[string]scCall{}, Clients: map[string]string{},
+		Raws: map[string]scRaw{}, Fail: []string{}, Kind: "shared", Conns: []string{"cA"}}}
+	ncl := 2 + rng.Intn(2)
+	nobj := 2
+	p.cfg.Objs = []int{1, 2}
+	type target struct{ obj, act int }
+	targets := []target{{1, 100}, {2, 100}, {1, 101}, {2, 101}}
+	rng.Shuffle(len(targets), func(i, j int) { targets[i], targets[j] = targets[j], targets[i] })
+	g := 0
+	add := func(cl, cn string, t target, n int) {
+		var l []plannedCall
+		for j := 0; j < n; j++ {
+			tag := fmt.Sprintf("k%d_%d", g, j)
+			c := scCall{Client: cl, Conn: cn, Svc: 1, Obj: t.obj, Act: t.act}
+			if t.act == 100 && rng.Intn(10) == 0 {
+				p.cfg.Fail = append(p.cfg.Fail, tag)
+			}
+			p.cfg.Calls[tag] = c
+			l = append(l, plannedCall{tag, c})
+		}
+		p.byG = append(p.byG, l)
+		g++
+	}
+	maxCalls := 0
+	for i := 0; i < ncl; i++ {
+		cl := fmt.Sprintf("cl%d", i+1)
+		p.cfg.Clients[cl] = "cA"
+		// every client is fresh (counter 1): the i-th call of each of them carries the same id
+		n := 1 + rng.Intn(3)
+		if n > maxCalls {
+			maxCalls = n
+		}
+		add(cl, "cA", targets[i], n)
+		if rng.Intn(3) == 0 {
+			add(cl, "cA", targets[i], 1+rng.Intn(2)) // a second goroutine on the same client
+		}
+	}
+	if rng.Intn(2) == 0 {
+		p.cfg.Conns = append(p.cfg.Conns, "cB")
+		p.cfg.Clients["clcB"] = "cB"
+		add("clcB", "cB", target{1 + rng.Intn(nobj), 100}, 1+rng.Intn(3))
+	}
+	// posts and the other kinds with the ids everybody uses
+	types := []string{"post", "post", "cancel", "capability", "reply", "error"}
+	for i := 0; i < rng.Intn(4); i++ {
+		t := types[rng.Intn(len(types))]
+		rw := scRaw{Tag: fmt.Sprintf("r%d", i), Conn: "cA", Type: t, Svc: 1, Obj: 1 + rng.Intn(nobj), Act: 100 + rng.Intn(2),
+			Pl: "ok", ID: 3 + 2*rng.Intn(maxCalls)}
+		p.cfg.Raws[rw.Tag] = rw
+		p.raws = append(p.raws, rw)
+	}
+	p.delay = rng.Intn(2) == 0
+	return p
+}
+
+// planFlood: saturation.  One connection; the first call parks in the method (harness gate), then more calls AND
+// posts than the mailbox (10), the consumer (1) and the consumer queue (10) can hold, one frame at a time: the
+// overflow is dropped by endPoint.dispatch - a dropped Call is answered "consumer blocked", a dropped Post by
+// nothing.  The tail alternates posts and calls so that both kinds are dropped.  Half of the posts carry the id
+// of a call in flight, the others an id no call uses (even).
 func planFlood(rng *rand.Rand) *recPlan {
 	p := &recPlan{cfg: trConfig{Ev: "config", Calls: map[string]scCall{}, Clients: map[string]string{"clcA": "cA"},
 		Raws: map[string]scRaw{}, Fail: []string{}, Kind: "flood", Conns: []string{"cA"}, Objs: []int{1}}}
-	n := 23 + rng.Intn(5)
+	n := 27 + rng.Intn(7)
+	ncalls, nposts := 0, 0
 	for j := 0; j < n; j++ {
-		tag := fmt.Sprintf("k%d", j)
+		post := j > 0 && rng.Intn(5) < 2
+		if j >= n-6 {
+			post = (n-j)%2 == 0
+		}
+		if post {
+			rw := scRaw{Tag: fmt.Sprintf("r%d", nposts), Conn: "cA", Type: "post", Svc: 1, Obj: 1, Act: 100, Pl: "ok"}
+			if nposts%2 == 0 {
+				rw.ID = 3 + 2*rng.Intn(ncalls+1) // the id of a call in flight (or of the next one)
+			} else {
+				rw.ID = 1000 + 2*nposts
+			}
+			nposts++
+			p.cfg.Raws[rw.Tag] = rw
+			p.raws = append(p.raws, rw)
+			p.seq = append(p.seq, floodItem{raw: &rw})
+			continue
+		}
+		tag := fmt.Sprintf("k%d", ncalls)
+		ncalls++
 		c := scCall{Client: "clcA", Conn: "cA", Svc: 1, Obj: 1, Act: 100}
 		p.cfg.Calls[tag] = c
-		p.byG = append(p.byG, []plannedCall{{tag, c}})
-	}
-	for i := 0; i < 2; i++ {
-		rw := scRaw{Tag: fmt.Sprintf("r%d", i), Conn: "cA", Type: "post", Svc: 1, Obj: 1, Act: 100, Pl: "ok", ID: 3 + 2*rng.Intn(n)}
-		p.cfg.Raws[rw.Tag] = rw
-		p.raws = append(p.raws, rw)
+		pc := plannedCall{tag, c}
+		p.byG = append(p.byG, []plannedCall{pc})
+		p.seq = append(p.seq, floodItem{call: &pc})
 	}
 	return p
 }
@@ -299,29 +382,13 @@ func (r *rig) sendRaw(rw scRaw) error {
 	return c.ep.Send(net.NewMessage(hdr, payload))
 }
 
-func (r *rig) doCall(cache *bus.Cache, pc plannedCall) {
-	px, err := cache.Proxy("probe", r.realObj(pc.c.Obj))
+func (r *rig) doCall(cl *caller, pc plannedCall) {
+	px, err := cl.proxy("probe", r.svcID, r.realObj(pc.c.Obj))
 	if err != nil {
 		hlib.Fatal("proxy: %v", err)
 	}
 	vhook.Emit("harness", nil, "call", "tag", pc.tag, "rig", r.gen)
-	var out outRec
-	if pc.c.Act == 100 {
-		ret, err := pong.MakePingPong(cache, px).Hello(pc.tag)
-		if err != nil {
-			out = outRec{"error", errClass(err.Error())}
-		} else {
-			out = outRec{"reply", trimRe(ret)}
-		}
-	} else {
-		ret, err := px.CallID(uint32(pc.c.Act), strPayload(pc.tag))
-		if err != nil {
-			out = outRec{"error", errClass(err.Error())}
-		} else {
-			m := net.NewMessage(net.NewHeader(net.Reply, 0, 0, 0, 0), ret)
-			out = outRec{"reply", respVal(&m)}
-		}
-	}
+	out := invoke(cl, px, pc.c.Act, pc.tag)
 	vhook.Emit("harness", nil, "ret", "tag", pc.tag, "kind", out.Kind, "val", out.Val, "rig", r.gen)
 }
 
@@ -351,17 +418,14 @@ func recordOne(p *recPlan, rng *rand.Rand) ([]trEvent, string) {
 			}
 		}
 	}
-	caches := map[string]*bus.Cache{}
 	for _, cn := range p.cfg.Conns {
-		c, err := r.connect(cn)
-		if err != nil {
+		if _, err := r.connect(cn); err != nil {
 			hlib.Fatal("connect: %v", err)
 		}
-		cache, err := r.setupClient(c)
-		if err != nil {
-			return nil, "set-up call: " + err.Error()
-		}
-		caches["cl"+cn] = cache
+	}
+	callers, shared, err := r.buildCallers(p.cfg.Clients, map[int]uint32{1: r.svcID})
+	if err != nil {
+		return nil, "set-up call: " + err.Error()
 	}
 	if !r.w.waitFor(3*tBound, func() bool { return r.settledLocked(nil, nil) }) {
 		return nil, "set-up does not settle: " + r.dump()
@@ -369,6 +433,9 @@ func recordOne(p *recPlan, rng *rand.Rand) ([]trEvent, string) {
 	r.w.mu.Lock()
 	for _, c := range r.conns {
 		c.base = c.cli.w.lastID
+		if shared[c.name] {
+			c.base = 1
+		}
 	}
 	r.rec.keep = true
 	r.w.mu.Unlock()
@@ -376,22 +443,23 @@ func recordOne(p *recPlan, rng *rand.Rand) ([]trEvent, string) {
 	var wg sync.WaitGroup
 	hang := ""
 	if flood {
-		// one request at a time so that at most one call has unobserved steps pending
-		rawAt := map[int]scRaw{}
-		for i, rw := range p.raws {
-			rawAt[3+i*7] = rw
-		}
-		for j, l := range p.byG {
-			if rw, ok := rawAt[j]; ok {
-				r.sendRaw(rw)
-			}
-			h := r.conns["cA"].cli.w
+		// one request at a time so that at most one request has unobserved steps pending; nothing is released
+		// before the last frame was dispatched (the error answer of the drop step is written by the reader
+		// goroutine: no answer of another goroutine can slip in between)
+		c := r.conns["cA"]
+		h := c.cli.w
+		for _, it := range p.seq {
+			r.w.mu.Lock()
 			before := h.frames
-			wg.Add(1)
-			go func(pc plannedCall) { defer wg.Done(); r.doCall(caches[pc.c.Client], pc) }(l[0])
+			r.w.mu.Unlock()
+			if it.raw != nil {
+				r.sendRaw(*it.raw)
+			} else {
+				wg.Add(1)
+				go func(pc plannedCall) { defer wg.Done(); r.doCall(callers[pc.c.Client], pc) }(*it.call)
+			}
 			r.w.waitFor(tBound, func() bool { return h.frames > before })
 			// the frame has reached the server's reader and was dispatched
-			c := r.conns["cA"]
 			r.w.waitFor(tBound, func() bool { return c.srv.r.idleLocked() && r.rec.epc(c.srvEpID).dispatch == c.cli.w.frames })
 			time.Sleep(200 * time.Microsecond)
 		}
@@ -412,7 +480,7 @@ func recordOne(p *recPlan, rng *rand.Rand) ([]trEvent, string) {
 			go func(l []plannedCall) {
 				defer wg.Done()
 				for _, pc := range l {
-					r.doCall(caches[pc.c.Client], pc)
+					r.doCall(callers[pc.c.Client], pc)
 				}
 			}(l)
 		}
@@ -456,7 +524,7 @@ func writeTrace(path string, cfg *trConfig, evs []trEvent) {
 	}
 }
 
-// c04-record <outdir> <n>: n traces (every 5th is a flood), files trace-<i>.ndjson
+// c04-record <outdir> <n>: n traces (of five: three random, one with several clients on one end point, one flood), files trace-<i>.ndjson
 func cmdC04Record(args []string) {
 	if len(args) < 2 {
 		hlib.Fatal("usage: c04-record <outdir> <n>")
@@ -470,9 +538,12 @@ func cmdC04Record(args []string) {
 	for i := 0; i < n; i++ {
 		rng := rand.New(rand.NewSource(hlib.Seed()*100003 + int64(i)))
 		var p *recPlan
-		if i%5 == 4 {
+		switch i % 5 {
+		case 4:
 			p = planFlood(rng)
-		} else {
+		case 2:
+			p = planShared(rng)
+		default:
 			p = planRandom(rng)
 		}
 		evs, hang := recordOne(p, rng)
